@@ -36,6 +36,9 @@ type c18Case struct {
 	// Revert: after the collection is closed, try SnapshotRevert to the
 	// previous footer on the ReadOnly store.
 	Revert bool `json:",omitempty"`
+	// TwoStep: open with OpenStore + Store.OpenCollection (both with the
+	// ReadOnly options) instead of the OpenStoreCollection convenience.
+	TwoStep bool `json:",omitempty"`
 }
 
 func dirState(dir string) (map[string]string, error) {
@@ -123,6 +126,7 @@ func genC18(r *eng.Rng, th bool) *c18Case {
 		c.Batches = append(c.Batches, bg.Next())
 	}
 	c.Revert = r.Chance(1, 3)
+	c.TwoStep = r.Chance(1, 2)
 	switch r.Intn(8) {
 	case 0:
 		c.Shape = "empty"
@@ -269,9 +273,20 @@ func runC18(cs *c18Case, scratch string, idx int, sr *run.ShardResult) (class, d
 	var coll moss.Collection
 	oerr := eng.Safe(func() error {
 		var err error
-		store, coll, err = moss.OpenStoreCollection(dir, so, moss.StorePersistOptions{CompactionConcern: moss.CompactionAllow})
+		po := moss.StorePersistOptions{CompactionConcern: moss.CompactionAllow}
+		if cs.TwoStep {
+			if store, err = moss.OpenStore(dir, so); err != nil {
+				return err
+			}
+			if coll, err = store.OpenCollection(so, po); err != nil {
+				store.Close()
+			}
+			return err
+		}
+		store, coll, err = moss.OpenStoreCollection(dir, so, po)
 		return err
 	})
+	sr.Units[fmt.Sprintf("open-api:twostep=%v", cs.TwoStep)]++
 	if oerr != nil {
 		after, _ := dirState(dir)
 		if d := diffState(before, after); d != "" {
